@@ -18,6 +18,7 @@ import (
 	"runtime"
 	"runtime/debug"
 	"slices"
+	"sort"
 	"strings"
 	"sync"
 	"sync/atomic"
@@ -230,6 +231,42 @@ func doParse(j *sup.Job, res *sup.Result) ([]*process.Process, []process.Name, *
 			}
 		}
 	}
+	var bag []string
+	var walk func(n *process.VerifNode)
+	walk = func(n *process.VerifNode) {
+		if n == nil {
+			return
+		}
+		for _, x := range n.Names {
+			if x.IsSelf || x.Ident == "" {
+				continue
+			}
+			pol := ""
+			if x.Pol != 0 {
+				pol = map[bool]string{true: "+", false: "-"}[x.Pol == int(types.POSITIVE)]
+			}
+			bag = append(bag, pol+x.Ident)
+		}
+		if n.Label != "" {
+			bag = append(bag, "label:"+n.Label)
+		}
+		if n.Fn != "" {
+			bag = append(bag, "fn:"+n.Fn)
+		}
+		for _, k := range n.Kids {
+			walk(k)
+		}
+	}
+	for _, p := range procs {
+		walk(process.VerifDumpForm(p.Body))
+	}
+	if env != nil && env.FunctionDefinitions != nil {
+		for _, f := range *env.FunctionDefinitions {
+			walk(process.VerifDumpForm(f.Body))
+		}
+	}
+	sort.Strings(bag)
+	c.Idents = bag
 	res.Counts = c
 	return procs, assumed, env
 }
@@ -244,6 +281,31 @@ func doTypecheck(j *sup.Job, res *sup.Result, procs []*process.Process, assumed 
 	tcs.done.Store(false)
 	tcs.cur.Store(env)
 	res.TcRan = true
+	if j.AllocBudget > 0 {
+		// a blow-up outside the hooked type algorithms (no logical step count) is decided by
+		// the bytes it allocates, sampled next to the call
+		var m0 runtime.MemStats
+		runtime.ReadMemStats(&m0)
+		stop := make(chan struct{})
+		defer close(stop)
+		go func() {
+			tk := time.NewTicker(25 * time.Millisecond)
+			defer tk.Stop()
+			for {
+				select {
+				case <-stop:
+					return
+				case <-tk.C:
+					var m runtime.MemStats
+					runtime.ReadMemStats(&m)
+					if m.TotalAlloc-m0.TotalAlloc > j.AllocBudget {
+						fmt.Fprintf(os.Stderr, "verif: typecheck allocation budget exceeded (%d bytes allocated, budget %d)\n", m.TotalAlloc-m0.TotalAlloc, j.AllocBudget)
+						os.Exit(3)
+					}
+				}
+			}
+		}()
+	}
 	err := process.Typecheck(procs, assumed, env)
 	at := tcs.steps.Load()
 	res.TcSteps = at
